@@ -149,9 +149,9 @@ func FuncName(fn *ssa.Function) string {
 	}
 	pk := ""
 	if p := fnPkg(fn); p != nil {
-		pk = shortPkg(p.Pkg.Path())
+		pk = p.Pkg.Name()
 	} else if fn.Object() != nil && fn.Object().Pkg() != nil {
-		pk = shortPkg(fn.Object().Pkg().Path())
+		pk = fn.Object().Pkg().Name()
 	}
 	if recv := fn.Signature.Recv(); recv != nil {
 		return pk + "." + typeBaseName(recv.Type()) + "." + stripTypeArgs(fn.Name())
@@ -196,11 +196,11 @@ func TypeName(t types.Type) string {
 	t = types.Unalias(t)
 	if n, ok := t.(*types.Named); ok {
 		if n.Obj().Pkg() != nil {
-			return shortPkg(n.Obj().Pkg().Path()) + "." + n.Obj().Name()
+			return n.Obj().Pkg().Name() + "." + n.Obj().Name()
 		}
 		return n.Obj().Name()
 	}
-	return types.TypeString(t, func(p *types.Package) string { return shortPkg(p.Path()) })
+	return types.TypeString(t, func(p *types.Package) string { return p.Name() })
 }
 
 func (w *World) buildConsts() {
@@ -225,7 +225,7 @@ func (w *World) buildConsts() {
 				w.consts[tn] = m
 			}
 			key := c.Val().ExactString()
-			q := shortPkg(p.PkgPath) + "." + name
+			q := p.Types.Name() + "." + name
 			if old, ok := m[key]; !ok || q < old {
 				m[key] = q
 			}
